@@ -1,4 +1,6 @@
 import TypedpyModel.Props.C04
+import TypedpyModel.Props.C04Subclass
+import TypedpyModel.Props.C04Alias
 #print axioms Typedpy.C04.immutable_step_frozen
 #print axioms Typedpy.C04.immutable_step_state
 #print axioms Typedpy.C04.immutable_run_frozen
@@ -15,3 +17,19 @@ import TypedpyModel.Props.C04
 #print axioms Typedpy.C04.immField_stepR_frozen
 #print axioms Typedpy.C04.immField_runR_frozen
 #print axioms Typedpy.C04.tables_all_guarded
+#print axioms Typedpy.C04.sealed_structure_not_subclassable
+#print axioms Typedpy.C04.sealed_ancestor_not_subclassable
+#print axioms Typedpy.C04.immutable_field_not_subclassable
+#print axioms Typedpy.C04.subclass_example
+#print axioms Typedpy.C04.reads_frozen
+#print axioms Typedpy.C04.reads_keep_separation
+#print axioms Typedpy.C04.immutable_structure_reads_frozen
+#print axioms Typedpy.C04.immutable_field_reads_frozen
+#print axioms Typedpy.C04.ctor_separates
+#print axioms Typedpy.C04.ctor_then_reads_frozen
+#print axioms Typedpy.C04.tables_accessors_safe
+#print axioms Typedpy.C04.tables_ctor_no_retention
+#print axioms Typedpy.C04.usesTable_safe
+#print axioms Typedpy.C04.immutable_structure_reads_frozen_current
+#print axioms Typedpy.C04.accessor_example
+#print axioms Typedpy.C04.raw_accessor_leaks
